@@ -47,6 +47,9 @@ static void mk(Opd& o, int kind, int s)
 {
   o.kind = kind;
   o.i = in_long(s); o.d = in_double(s);
+#ifdef VX_FIX_A_I
+  if (s == 0) o.i = VX_FIX_A_I;       /* instance parameter: concrete integer payload of the first operand */
+#endif
 #ifdef VX_FIX_B_I
   if (s == 1) o.i = VX_FIX_B_I;       /* instance parameter: concrete integer payload of the second operand */
 #endif o.b = in_bool(3 * s); o.isnull = in_bool(3 * s + 1); o.lval = in_bool(3 * s + 2);
@@ -196,6 +199,12 @@ extern "C" void vx_binop()
         if (B.i == 3) verif_assert(v == a * a * a, "C03: x ** 3 = x * x * x (mod 2^64)");
 #endif
 #ifdef VX_FIX_B_I
+        if (VX_FIX_B_I > 64) {
+          /* large exponents: the power by the binary expansion of the (constant) exponent, 64-bit wide */
+          unsigned long e = 1, sq = a;
+          for (unsigned long n = (unsigned long)VX_FIX_B_I; n != 0; n >>= 1) { if (n & 1) e *= sq; sq *= sq; }
+          verif_assert(v == e, "C03: x ** n for an exponent beyond 2^32 uses the whole exponent (mod 2^64) [solo]");
+        }
         if (VX_FIX_B_I >= 0 && VX_FIX_B_I <= 64) {
           unsigned long e = 1;
           for (int k = 0; k < VX_FIX_B_I; k++) e *= a;      /* naive repeated product, the definition */
